@@ -64,6 +64,7 @@ def run(ctx):
                                'Dataset.%s stores self.%s; only the constructor may (column order is normalised there)' % (name, el.attr))
     ctx.floor('stores to Dataset fields', n_owner, 3)
     check_bare_names(ctx)
+    check_sort_and_load(ctx)
 
     # ---- column order on every constructor path ----------------------------------------------------
     ex = SeqExec(repo, init, SELF, {p_df: ('frame', p_df)})
@@ -357,3 +358,61 @@ def check_bare_names(ctx):
         ctx.ob('bare-name', fi, fi.node, ok,
                '[%s given as %s] the attributes projected onto must be the sequence of names (a bare name wrapped into one element); they are %s'
                % (p, {'strsub': 'a str subclass'}.get(kind, kind), v[1:] if isinstance(v, tuple) else v), construct='argument of Domain.project as %s' % kind)
+
+
+def check_sort_and_load(ctx):
+    """Domain.sort('size') orders by size and keeps the domain order among equal sizes (python's sorted is stable; numpy's argsort is
+    only with kind='stable' / 'mergesort').  Dataset.load builds the domain from the domain file in the FILE's attribute order."""
+    from ..normalise import Defs, expand
+    # ---- sort ----------------------------------------------------------------------------------------------------------------
+    if ctx.repo.has_func(DOM, 'Domain.sort'):
+        fi = ctx.repo.nfunc(DOM, 'Domain.sort')
+        ctx.analysed(fi)
+        n = 0
+        for c in ast.walk(fi.node):
+            if isinstance(c, ast.Call) and U(c.func).split('.')[-1] in ('argsort', 'lexsort'):
+                n += 1
+                kind = next((k.value for k in c.keywords if k.arg == 'kind'), None)
+                stable = isinstance(kind, ast.Constant) and kind.value in ('stable', 'mergesort')
+                ctx.ob('sort-stable', fi, c, stable or U(c.func).endswith('lexsort'),
+                       'attributes of equal size must keep their domain order (the contract of the stable `sorted(self.attrs, key=self.size)`); '
+                       '`%s` is %s' % (U(c)[:60], 'stable' if stable else 'numpy\'s default sort, which is not stable: ties are reordered'),
+                       construct='stability of Domain.sort')
+            if isinstance(c, ast.Call) and isinstance(c.func, ast.Name) and c.func.id == 'sorted':
+                n += 1
+                ctx.ob('sort-stable', fi, c, True, 'python\'s sorted is stable', construct='stability of Domain.sort: ' + U(c)[:40])
+        ctx.floor('sorting sites in Domain.sort', n, 1)
+    # ---- load ----------------------------------------------------------------------------------------------------------------
+    if ctx.repo.has_func(DS, 'Dataset.load'):
+        fi = ctx.repo.nfunc(DS, 'Dataset.load')
+        ctx.analysed(fi)
+        ctor = [c for c in ast.walk(fi.node) if isinstance(c, ast.Call) and U(c.func) == 'Domain' and len(c.args) == 2]
+        if len(ctor) != 1:
+            raise AnalysisError('Dataset.load: construction of the domain not found')
+        c = ctor[0]
+        a0, a1 = c.args
+        cfg = None
+        if isinstance(a0, ast.Call) and isinstance(a0.func, ast.Attribute) and a0.func.attr == 'keys' and isinstance(a1, ast.Call) \
+                and isinstance(a1.func, ast.Attribute) and a1.func.attr == 'values' and U(a0.func.value) == U(a1.func.value):
+            cfg = a0.func.value
+        if cfg is None or not isinstance(cfg, ast.Name):
+            raise AnalysisError('Dataset.load: Domain(%s, %s) is not built from the keys and values of one mapping' % (U(a0)[:30], U(a1)[:30]))
+        # follow the mapping back to json.load: every re-definition must iterate the previous mapping itself (order preserved)
+        defs_ = [s_ for s_ in fi.body if isinstance(s_, ast.Assign) and len(s_.targets) == 1 and U(s_.targets[0]) == cfg.id]
+        ok, why = True, 'the mapping loaded from the domain file'
+        seen_load = False
+        for d in defs_:
+            v = d.value
+            if isinstance(v, ast.Call) and U(v.func).split('.')[-1] in ('load', 'loads'):
+                seen_load = True
+                continue
+            if isinstance(v, ast.DictComp) and len(v.generators) == 1:
+                it = v.generators[0].iter
+                src = U(it.func.value) if isinstance(it, ast.Call) and isinstance(it.func, ast.Attribute) and it.func.attr in ('keys', 'items') else U(it)
+                if src == cfg.id:
+                    continue
+                ok, why = False, 'the mapping is rebuilt by iterating `%s`, so the attributes come in THAT order, not in the order of the domain file' % U(it)[:50]
+                break
+            raise AnalysisError('Dataset.load: unrecognised re-definition `%s` of the domain mapping' % U(d)[:60])
+        ctx.ob('column-order', fi, c, ok and seen_load,
+               'the domain of a loaded dataset lists the attributes in the order of the domain file: %s' % why, construct='attribute order of Dataset.load')
